@@ -85,7 +85,7 @@ From Gecs Require Import Spec OracleSim OracleRaw.
 
 (** "Any handle value whatsoever ... either reports absence (or panics cleanly), or, only when bit-identical to the
     handle of a live entity, reaches exactly that entity", as the specification oracle reads it on implementation
-    traces.  For ALL histories of the core language of OracleSim extended with world-level destroys and world-level and archetype-level probes through ANY
+    traces.  For ALL histories of the core language of OracleSim extended with destroys and probes, at world and archetype level, through ANY
     raw pair of 32-bit words - never issued, stale, naming another archetype or none, generation zero, slot index
     beyond the capacity (the documented debug assertion) - the oracle accepts the whole run of the model. *)
 Theorem C03_forged_handles_refine_the_oracle : forall cfg d qs caps w ops,
@@ -103,7 +103,8 @@ Definition c03_core_ops : list op :=
    OCreate 1 7%N; OProbe LWorld KEnt TAny (RRaw 3%N 2%N); OProbe LWorld KEnt TAny (RRaw 0%N 1%N);
    OProbe (LArch 1) KEnt TAny (RRaw 3%N 2%N); OProbe (LArch 0) KEnt TAny (RRaw 3%N 2%N); OProbe (LArch 1) KEnt TAny (RRaw 4294967043%N 7%N);
    ODestroy LWorld KEnt TAny (RRaw 3%N 1%N); ODestroy LWorld KEnt TAny (RRaw 3%N 2%N); ODestroy LWorld KEnt TAny (RRaw 3%N 2%N);
-   ODestroy LWorld KEnt TAny (RRaw 9%N 2%N); ODestroy LWorld KEnt TAny (RRaw 3%N 0%N); OProbe LWorld KEnt TAny (RIssued 2); OLen 1].
+   ODestroy LWorld KEnt TAny (RRaw 9%N 2%N); ODestroy LWorld KEnt TAny (RRaw 3%N 0%N); OProbe LWorld KEnt TAny (RIssued 2); OLen 1;
+   OCreate 1 9%N; ODestroy (LArch 0) KEnt TAny (RRaw 3%N 3%N); ODestroy (LArch 1) KEnt TAny (RRaw 3%N 3%N); ODestroy (LArch 1) KEnt TAny (RRaw 3%N 3%N); OLen 1].
 Example C03_core_language_instance :
   forallb (l1_op c03_core_decl) c03_core_ops = true /\
   spec_check (Config false false true) c03_core_decl [] (ONew [1; 1] :: c03_core_ops)
